@@ -19,8 +19,14 @@ def reset_process_globals():
 
 
 def sim_params_snapshot():
-    return {'nli_params': SimParams._shared_dict['nli_params'].to_json(),
-            'raman_params': SimParams._shared_dict['raman_params'].to_json()}
+    """every attribute of the two process-wide parameter objects, read directly (not through their own to_json)"""
+    def attrs(obj):
+        out = {}
+        for k, v in sorted(vars(obj).items()):
+            out[k] = list(v) if isinstance(v, (list, tuple)) else (v.tolist() if hasattr(v, 'tolist') else v)
+        return out
+    return {'nli_params': attrs(SimParams._shared_dict['nli_params']),
+            'raman_params': attrs(SimParams._shared_dict['raman_params'])}
 
 
 def set_sim_params(doc):
